@@ -246,7 +246,9 @@ class BlockingPortal:
         kwargs: dict[str, Any],
         future: Future[T_Retval],
     ) -> None:
-        event_loop_thread_id = self._event_loop_thread_id
+        # This always runs in the event loop thread; don't rely on the attribute which
+        # is reset by stop()
+        event_loop_thread_id: int | None = get_ident()
 
         def callback(f: Future[T_Retval]) -> None:
             if f.cancelled():
